@@ -31,6 +31,8 @@ SCENARIOS = {
     "siding_slow": dict(links=[L(next=2, next_alt=3), L(prev=1, next=4), L(prev=1, next=4, speed=10), L(prev=2, prev_alt=3)], origs=[1], dests=[4]),
     # passing siding with equal running: the alternate branch is joined back onto the main branch (speed join, fake join node)
     "siding_join": dict(links=[L(next=2, next_alt=3), L(prev=1, next=4), L(prev=1, next=4), L(prev=2, prev_alt=3)], origs=[1], dests=[4]),
+    # two origin links feeding one line: alternate start nodes, the second origin's branch joins the first
+    "two_origins": dict(links=[L(next=3), L(next=3), L(prev=1, prev_alt=2, next=4), L(prev=3, next=5), L(prev=4)], origs=[1, 2], dests=[5]),
     # two sidings in a row: nested alternates
     "two_sidings": dict(links=[L(next=2, next_alt=3), L(prev=1, next=4), L(prev=1, next=4, speed=12), L(prev=2, prev_alt=3, next=5, next_alt=6),
                                L(prev=4, next=7), L(prev=4, next=7, speed=15), L(prev=5, prev_alt=6)], origs=[1], dests=[7]),
@@ -114,7 +116,7 @@ def update_case(name, backward=True):
         d = [("departure time >= 0", S["t0"] >= 0)]
         for i in range(n):
             if f"d{i}" in S:
-                d.append((f"duration d{i} >= 0", S[f"d{i}"] >= 0))
+                d.append((f"duration d{i} > 0 (the steps construction gives a non-zero duration are positive)", S[f"d{i}"] > 0))
         # a split node's two branches leave from the same point of the same link: the alternate's first step (which, unlike the primary's,
         # is only queued when its owner is popped) is assumed not to be shorter than the primary's -- true of every graph the scenarios
         # produce (checked below); without it the forward pass is not a shortest-path computation (DESIGN.md, C15 observation)
@@ -150,13 +152,21 @@ def update_case(name, backward=True):
         vals = [g(c, i, "time_sched") for i in range(n)]
         return all(not isinstance(v, Opaque) and not (isinstance(v, float) and v != v) for v in vals)
 
-    def primary_equation(c):
-        conds = []
-        for i in range(2, n):
-            p = idx(c, i, "idx_prev")
-            if idx(c, p, "idx_next") == i:
-                conds.append(EQ(g(c, i, "time_sched"), g(c, p, "time_sched") + g(c, p, "time_to_next")))
-        return AND(*conds) if conds else True
+    start_split = pre[1]["idx_next_alt"] != 0
+
+    def primary_equation_on(edges):
+        def fn(c):
+            conds = []
+            for i in range(2, n):
+                p = idx(c, i, "idx_prev")
+                if idx(c, p, "idx_next") == i and edges(p):
+                    conds.append(EQ(g(c, i, "time_sched"), g(c, p, "time_sched") + g(c, p, "time_to_next")))
+            return AND(*conds) if conds else True
+        return fn
+
+    # several origins: the edge out of the start node is judged on its own (after the backward pass a slower primary origin branch
+    # carries its latest start time there, known finding; every other edge is not affected by it)
+    primary_equation = primary_equation_on(lambda p: not (start_split and backward and p == 1))
 
     def not_later(kind):
         def fn(c):
@@ -206,6 +216,8 @@ def update_case(name, backward=True):
         Claim("step durations stay non-negative", durations_kept, role="durations_nonneg"),
         Claim("the passes' own asserts never fire", None, when="nopanic", role="no_panic"),
     ]
+    if start_split and backward:
+        claims.insert(3, Claim("scheduled time = primary predecessor's time + duration on the edge out of the start node", primary_equation_on(lambda p: p == 1), role="start_split_primary_equation"))
     calls = [Call("update_times::update_times_forward", [("Quantity", Sym("t0"))])]
     if backward:
         calls.append(Call("update_times::update_times_backward", []))
@@ -226,7 +238,7 @@ def update_case(name, backward=True):
 
 
 def m_cases(tier):
-    names = ["chain3", "siding_slow", "siding_join"] + (["two_sidings"] if tier == "thorough" else [])
+    names = ["chain3", "siding_slow", "siding_join", "two_origins"] + (["two_sidings"] if tier == "thorough" else [])
     cs = []
     for nme in names:
         cs.append(update_case(nme, backward=False))
